@@ -33,25 +33,43 @@ Reused: P1 / P2 / P2b (reference elaboration, `parse_file_elab_ms`, `compile_pri
    threaded), then the post-passes (first text whose name occurred before among hoisted texts ++ text statements;
    then first movement whose name occurred before among movement statements ++ hoisted movements), then the
    emitter (`progClash`: first script in output order, first chunk of ITS LAYOUT ORDER, first label statement).
-2. `violation_rejected` : `FirstViolation … v → compileFileM … = .error v.err ∧ compileToks … = .error v.err`
-   (exact error value), `FViol.located` : the reported `ParseError` starts at `v.tok` (line, byte and character
-   column); `violation_rejected_source` : … `compile env o src = .parseError e` for every source whose tokens are
-   the printed file.  The exact values per kind: `err_breakOutside` … `err_labelText`.
-   "First" for the parser kinds means `violTops env [] ts = some v`; `violTops_append`, `violL_append`,
-   `break_outside_first`, `continue_outside_first`, `const_redefined_first`, `duplicate_case_first` show how it is
-   established for a file whose earlier statements are violation-free.
-3. `rejected_only_for_documented` : for a `TWFM` file EVERY error of `compileFileM` / `compileToks` is `v.err` of
-   the first violation `v : FViol` — the catalogue is complete for the grammar (proved in full: parser half,
-   post-passes AND emitter; in particular no `.plain` / `.panic` / `.outOfFuel` error is reachable).
+   `firstViolation? env o eofT ts : Option FViol` — the same as a COMPUTABLE function; `firstViolation_iff`:
+   `FirstViolation … v ↔ firstViolation? … = some v` (so the first violation is unique: `firstViolation_unique`,
+   and `by decide` finds it on concrete files).
+2. `violation_rejected_file` : `FirstViolation … v → compileFileM env o eofT ts = .error v.err`;
+   `violation_rejected` : `… → compileToks env o (printTopsM ts ++ [eofT]) = .error v.err` (the exact error value)
+   and the reported `ParseError` starts at `v.tok` (line, byte and character column; `FViol.located`);
+   `violation_rejected_source` : … `compile env o src = .parseError e` for every source text whose tokens
+   (`Lexer.lexAll src`) are the printed file.  The exact values per kind: `err_breakOutside` … `err_labelText`.
+   "First" for the parser kinds means `violTops env [] ts = some v`; `violTops_append`, `violTops_behind`,
+   `violL_append`, `break_outside_first`, `continue_outside_first`, `const_redefined_first`,
+   `duplicate_case_first` show how it is established for a file whose earlier statements are violation-free.
+3. `rejected_only_for_documented(_file)` : for a `TWFM` file EVERY error of `compileToks` / `compileFileM` is
+   `v.err` of the first violation `v : FViol`, of class documented / configuration / emptyValue — the catalogue
+   is complete for the grammar (proved in full: parser, post-passes AND emitter; in particular no `.plain` /
+   `.panic` / `.outOfFuel` error is reachable).  `rejected_iff`; `compile_by_catalogue`: compilation of a file of
+   the grammar is `.error v.err` if `firstViolation? = some v` and `.ok _` if it is `none`.
 4. `accepted_has_no_violation` : an accepted file has no first violation; `accepted_clean` spells this out:
-   the checker finds no parser-stage violation ANYWHERE in the file, the text names (hoisted + statements) are
-   pairwise distinct, the movement names too, and no label statement in any chunk of any script of the program is
-   named like a chunk label of its script or like a text.
-Non-vacuity: section Example — one small file per violation kind, the reported error computed by `decide` on the
-model pipeline (`reportedOf (compileToks …)`) and obtained from `violation_rejected`.
+   the checker finds no parser-stage violation ANYWHERE in the file (`violTops env [] ts = none`; `orV a b = none`
+   iff both are), the text names (hoisted + statements) are pairwise distinct, the movement names too, and no
+   label statement in any chunk of any script of the program is named like a chunk label of its script or like a
+   text (`no_clash_labels`).
+Non-vacuity: section Example — one small file per violation kind (12 files; nested `break`, a `continue` inside a
+`switch`, a duplicate case that is one only after constant substitution, clashes with hoisted `_Text_0` /
+`_Movement_0`, a violation inside an inline body of a `mapscripts` statement behind a script, a configuration
+error, an empty constant, an accepted file), each time the reported error computed by `decide` on the model
+pipeline (`reportedOf (compileToks …)`) AND obtained from `violation_rejected` (`by_catalogue`, the first
+violation found by `decide`); one example from SOURCE TEXT through the lexer (`srcBreak_lexed`,
+`violation_rejected_source`).
 
 NOTHING IS PARTIAL for the covered grammar.  Not covered: what P2b does not cover (token sequences outside the
-grammar, `format()`, poryswitch inside text / movement / mart, the lexer).
+grammar, `format()`, poryswitch inside text / movement / mart; the lexer only through the hypothesis
+`Lexer.lexAll src = printTopsM ts ++ [eofT]`).  LIMITS OF THE FORMULATION: the parser kinds are stated on the
+SURFACE SYNTAX (the checker `violTops` reads `STopM` only); the post-pass and emitter kinds are stated on the
+reference elaboration of the file (`P2b.elabTopsM`: the list of hoisted texts / movements with their generated
+names, the chunk tables `scriptChunks` of the elaborated bodies) — "a label statement of a chunk" is an AST node
+`Stmt.label tok name g`, whose token `tok` is the name token of the source label (`StmtG.elabS`), not re-derived
+here from the source statement.
 
 NOTICED IN THE MODEL (= Go)
 * DUPLICATE MOVEMENT NAMES ARE REPORTED ON THE EARLIER DEFINITION, not on the offending (second) one:
@@ -82,6 +100,7 @@ inductive FViol where
   | dupMovement (tok : Tok) (name : String)
   /-- a label statement clashing with a chunk label of its script / with a text name -/
   | label (v : LViol)
+  deriving DecidableEq, Repr
 
 /-- The exact error value compilation returns. -/
 def FViol.err : FViol → CErr
@@ -851,6 +870,7 @@ def exLblChunk : List STopM :=
 example : reportedOf (compileToks {} exO (printTopsM exLblChunk ++ [eofT])) =
     some ⟨4, 4, 2, 2, 5, 5, "duplicate script label 'S_1'. Choose a unique label that won't clash with the auto-generated script labels"⟩ := by
   decide
+set_option maxRecDepth 100000 in
 example : compileToks {} exO (printTopsM exLblChunk ++ [eofT]) =
     .error (.emit (.perr tLbl "duplicate script label 'S_1'. Choose a unique label that won't clash with the auto-generated script labels")) :=
   by_catalogue (v := .label (.labelChunk tLbl "S_1")) (by decide) (by decide)
@@ -862,6 +882,7 @@ def exLblText : List STopM := [script "S" [msgbox "Hi", .label tLblT colon]]
 example : reportedOf (compileToks {} exO (printTopsM exLblText ++ [eofT])) =
     some ⟨3, 3, 2, 2, 10, 10, "duplicate text label 'S_Text_0'. Choose a unique label that won't clash with the auto-generated text labels"⟩ := by
   decide
+set_option maxRecDepth 100000 in
 example : compileToks {} exO (printTopsM exLblText ++ [eofT]) =
     .error (.emit (.perr tLblT "duplicate text label 'S_Text_0'. Choose a unique label that won't clash with the auto-generated text labels")) :=
   by_catalogue (v := .label (.labelText tLblT "S_Text_0")) (by decide) (by decide)
@@ -877,6 +898,30 @@ example : reportedOf (compileToks {} exO (printTopsM exInline ++ [eofT])) =
 example : compileToks {} exO (printTopsM exInline ++ [eofT]) =
     .error (.parse (newParseError tBreak "'break' statement outside of any break-able scope")) :=
   by_catalogue (v := .parse (.stmt (.breakOutside tBreak))) (by decide) (by decide)
+
+/-! ### from source text, through the lexer: `script A {⏎  break⏎}` -/
+def srcBreak : String := "script A {\n  break\n}"
+def tBreak2 : Tok := tkp ⟨2, 2, 2, 2, 7, 7⟩ .BREAK "break"
+def exSrcFile : List STopM :=
+  [.base (.script (tkp ⟨1, 0, 0, 1, 6, 6⟩ .SCRIPT "script") .absent (tkp ⟨1, 7, 7, 1, 8, 8⟩ .IDENT "A")
+    (tkp ⟨1, 9, 9, 1, 10, 10⟩ .LBRACE "{") [.brk tBreak2] (tkp ⟨3, 0, 0, 3, 1, 1⟩ .RBRACE "}"))]
+def exSrcEof : Tok := tkp ⟨3, 1, 1, 3, 1, 1⟩ .EOF ""
+
+/-- the model lexer produces exactly the printed file (types, literals AND positions) -/
+theorem srcBreak_lexed : Lexer.lexAll srcBreak.toList = printTopsM exSrcFile ++ [exSrcEof] := by decide +kernel
+
+-- by evaluation of the whole model pipeline (compiled evaluation, not a proof; the kernel needs ~25 s per lexer run)
+#guard C18e.errOf (compile {} exO srcBreak.toList) ==
+    some ⟨2, 2, 2, 2, 7, 7, "'break' statement outside of any break-able scope"⟩
+/-- by the theorem: the error is the `ParseError` of the first violation and starts at the `break` token -/
+example : ∃ e, compile {} exO srcBreak.toList = .parseError e ∧ e.lineStart = 2 ∧ e.charStart = 2 ∧
+    e.msg = "'break' statement outside of any break-able scope" := by
+  obtain ⟨e, h1, h2, h3, h4, _⟩ := violation_rejected_source {} exO srcBreak.toList exSrcEof rfl exSrcFile
+    (by decide) srcBreak_lexed (.parse (.stmt (.breakOutside tBreak2))) (.parse _ (by decide))
+  refine ⟨e, h1, h3, h4, ?_⟩
+  simp only [FViol.err, PViol.err, SViol.err, breakOutsideErr, newParseError, CErr.reported,
+    Option.some.injEq] at h2
+  rw [← h2]
 
 /-! ### the other two classes: a configuration error and an empty value -/
 
@@ -930,5 +975,13 @@ end Example
 #print axioms firstViolation_iff
 #print axioms firstViolation_unique
 #print axioms compile_by_catalogue
+#print axioms elabL_viol
+#print axioms elabTopsM_viol
+#print axioms firstDuplicateText_iff
+#print axioms firstDuplicateMovement_iff
+#print axioms emitScript_clash
+#print axioms emitProgram_clash
+#print axioms no_clash_labels
+#print axioms srcBreak_lexed
 
 end Pory.C20c
